@@ -22,6 +22,14 @@ TAGS: dict[str, Tag] = {n: Tag(n) for n in KEYS}
 TAGS.update({n: Tag(n, is_key=False) for n in NONKEYS})
 
 
+# Two key tags with long qualified names that share their first 70 characters (descriptive names
+# assembled from several parts, as production code has them).  Only workloads that never map column
+# names back to the model's one-letter names use them (C08).
+_LONG = "deep_coadd_forced_source_table__visit_detector_region__measurement_flux_"
+TAGS["p"] = Tag(_LONG + "instrumental_id")
+TAGS["q"] = Tag(_LONG + "instrumental_ordinal")
+
+
 def T(name: str) -> Tag:
     return TAGS[name]
 
